@@ -190,8 +190,10 @@ func VH_C01_e2e() {
 		s1.CloseSend()
 		close(sendDone)
 	}()
+	merge := v.Param("MERGE", 0) != 0
+	destBefore := m.Snapshot(dest)
 	go func() {
-		recvErr = Receive(ctx, s2, dest, ReceiveOpt{})
+		recvErr = Receive(ctx, s2, dest, ReceiveOpt{Merge: merge})
 		close(recvDone)
 	}()
 	<-recvDone
@@ -201,7 +203,45 @@ func VH_C01_e2e() {
 		return
 	}
 	dstSnap := m.Snapshot(dest)
-	specTreesEqual(srcSnap, dstSnap, func(p string) bool { return !priorDirs[p] })
+	if merge {
+		// merge mode: the overlay of the source over the old destination; nothing is deleted that the
+		// source does not replace
+		v.Cover("merge")
+		var fromSrc []m.Entry
+		for _, d := range dstSnap {
+			for _, s := range srcSnap {
+				if s.Path == d.Path {
+					fromSrc = append(fromSrc, d)
+				}
+			}
+		}
+		specTreesEqual(srcSnap, fromSrc, func(p string) bool { return !priorDirs[p] })
+		for i := range destBefore {
+			o := &destBefore[i]
+			inSrc, replaced := false, false
+			for _, s := range srcSnap {
+				if s.Path == o.Path {
+					inSrc = true
+				}
+				if isUnder(o.Path, s.Path) && s.Kind != m.KDir {
+					replaced = true // an ancestor directory was replaced by a non-directory
+				}
+			}
+			if inSrc || replaced {
+				continue
+			}
+			var a *m.Entry
+			for j := range dstSnap {
+				if dstSnap[j].Path == o.Path {
+					a = &dstSnap[j]
+				}
+			}
+			v.Cover("kept-stale")
+			v.Assert(a != nil && a.Kind == o.Kind && string(a.Data) == string(o.Data) && a.Target == o.Target, "in merge mode nothing is deleted that the source does not replace")
+		}
+	} else {
+		specTreesEqual(srcSnap, dstSnap, func(p string) bool { return !priorDirs[p] })
+	}
 	after := m.Snapshot(srcRoot)
 	v.Assert(len(after) == len(srcSnap), "the source tree is not modified")
 	v.Assert(v.Goroutines() == 0, "every goroutine of both ends has ended")
